@@ -6,7 +6,7 @@ import pathlib
 
 from vf.cond import cond
 
-from .common import STUB_INTERN, Environment, LiquidError, concrete_int, drive, in_alpha, outcome
+from .common import STUB_INTERN, Environment, LiquidError, concrete_int, drive, in_alpha, outcome, untraced
 
 from liquid2 import CachingFileSystemLoader, ChoiceLoader, FileSystemLoader, PackageLoader  # noqa: E402
 from liquid2.exceptions import TemplateNotFoundError  # noqa: E402
@@ -18,7 +18,7 @@ EXPLANATION = (
 OUTSIDE = [
     "symlinks, case-insensitive or Windows path semantics (posix only)",
     "names longer than the stated bound; alphabets other than { / . a ~ e-acute }",
-    "run_in_executor plumbing of get_source_async (needs a running event loop): the async path is checked from resolve_path on",
+    "the thread-pool hop of get_source_async (run_in_executor runs its callable inline under a stub loop)",
 ]
 
 ALPHA = "/.a~é"
@@ -49,13 +49,27 @@ class _AllExist:
     def __enter__(self):
         self.exists = pathlib.Path.exists
         self.is_file = pathlib.Path.is_file
+        self.read_text = pathlib.Path.read_text
+        self.reads: list[str] = []
+        reads = self.reads
         pathlib.Path.exists = lambda self, **k: True  # type: ignore[method-assign]
         pathlib.Path.is_file = lambda self, **k: True  # type: ignore[method-assign]
+
+        original = self.read_text
+
+        def read_text(path, *a, **k):  # type: ignore[no-untyped-def]
+            if str(path).endswith(".py"):  # the analysis engine reading its own sources, not a template read
+                return original(path, *a, **k)
+            reads.append(str(path))
+            return "T"
+
+        pathlib.Path.read_text = read_text  # type: ignore[method-assign]
         return self
 
     def __exit__(self, *a):
         pathlib.Path.exists = self.exists  # type: ignore[method-assign]
         pathlib.Path.is_file = self.is_file  # type: ignore[method-assign]
+        pathlib.Path.read_text = self.read_text  # type: ignore[method-assign]
         return False
 
 
@@ -169,38 +183,56 @@ class _RecordingCFS(CachingFileSystemLoader):
 HOSTILE = ["a", "/etc/passwd", "../x", "a/../../x", "/", ".", "", "./a", "//a", "a/./b", "..", "/srv/t/../x"]
 
 
-def _tag_ok(kind: int, via: int, name: str, ext: bool) -> bool:
-    cls = (_RecordingFS, _RecordingCFS)[kind % 2]
-    inner = cls(ROOT1, ext=".liquid" if ext else None)
-    inner.seen = []
-    loader = ChoiceLoader([inner]) if kind >= 2 else inner
-    env = Environment(loader=loader)
-    with _AllExist():
+VIA_SRC = [None, "{% include n %}", "{% render 'X' %}", "{% extends 'X' %}"]
+
+
+def _tag_ok(kind: int, via: int, name: str, ext: bool, is_async: bool = False) -> bool:
+    def build():  # type: ignore[no-untyped-def]  # object graph and parsing: nothing symbolic
+        if kind >= 4:  # PackageLoader (reads through Path.read_text), alone or behind a ChoiceLoader
+            inner = PackageLoader("liquid2", package_path="builtin", ext=".liquid" if ext else ".txt")
+            root = str(inner.paths[0])
+            loader = ChoiceLoader([inner]) if kind == 5 else inner
+        else:
+            cls = (_RecordingFS, _RecordingCFS)[kind % 2]
+            inner = cls(ROOT1, ext=".liquid" if ext else None)
+            inner.seen = []
+            root = ROOT1
+            loader = ChoiceLoader([inner]) if kind >= 2 else inner
+        env = Environment(loader=loader)
+        return inner, root, env, (env.from_string(VIA_SRC[via]) if via else None)
+
+    inner, root, env, t = untraced(build)
+    if via >= 2:
+        # render / extends take the name as a string literal written by the template author: the parsed
+        # literal's value is replaced by the solver's string (state constructed directly, the lexer is not the subject)
+        t.nodes[0].name.value = name
+    with _AllExist() as fs:
+        seen = fs.reads if kind >= 4 else inner.seen
         try:
             if via == 0:
-                out = env.get_template(name).render()
-            elif via == 1:
-                out = env.from_string("{% include n %}").render(n=name)
+                t = drive(env.get_template_async(name)) if is_async else env.get_template(name)
+            if is_async:
+                drive(t.render_async(n=name))
             else:
-                out = env.from_string("{% render n %}").render(n=name)
+                t.render(n=name)
         except TemplateNotFoundError:
-            return not inner.seen
+            return not seen
         except LiquidError:
-            return all(inside(ROOT1, s) for s in inner.seen)
+            return all(inside(root, s) for s in seen)
         except Exception:  # noqa: BLE001
             return False
-    return all(inside(ROOT1, s) for s in inner.seen)
+    return all(inside(root, s) for s in seen)
 
 
 @cond(
-    pre=["len(name) <= 3", "in_alpha(name, ALPHA)", "0 <= via <= 2", "0 <= kind <= 3"],
-    timeout=300,
-    timeout_thorough=900,
-    shard={"via": [0, 1, 2], "ext": [False, True]},
-    covers="get_template / {% include %} / {% render %} with a data-supplied name only ever read files inside the search path (FileSystemLoader, CachingFileSystemLoader, ChoiceLoader over each)",
-    bounds="name over {/ . a ~ e-acute} len <= 3; 4 loader kinds; fs stub: everything exists, _read records the path",
-    stubs=("Path.exists/is_file := True for every path", "FileSystemLoader._read records the path and returns a fixed source"),
-    grid=lambda: [(k, v, n, e) for k in range(4) for v in range(3) for n in HOSTILE for e in (False, True)],
+    pre=["len(name) <= 3", "in_alpha(name, ALPHA)", "0 <= via <= 3", "0 <= kind <= 5"],
+    timeout=400,
+    timeout_thorough=1200,
+    shard={"via": [0, 1, 2, 3], "ext": [False, True], "is_async": [False, True]},
+    covers="get_template / get_template_async / {% include %} with a data-supplied name and {% render %} / {% extends %} with any literal name (render and render_async) only ever read files inside the search path or package directory (FileSystemLoader, CachingFileSystemLoader, PackageLoader, ChoiceLoader over each), through get_source and get_source_async",
+    bounds="name over {/ . a ~ e-acute} len <= 3; 6 loader kinds; sync and async; fs stub: everything exists, reads are recorded",
+    stubs=("Path.exists/is_file := True for every path", "FileSystemLoader._read / Path.read_text record the path and return a fixed source", "asyncio.get_running_loop := inline stub loop (see common.STUB_LOOP)"),
+    grid=lambda: [(k, v, n, e, a) for k in range(6) for v in range(4) for n in HOSTILE for e in (False, True) for a in (False, True)],
 )
-def d_tags(kind: int, via: int, name: str, ext: bool) -> bool:
-    return _tag_ok(kind, via, name, ext)
+def d_tags(kind: int, via: int, name: str, ext: bool, is_async: bool) -> bool:
+    return _tag_ok(concrete_int(kind, 0, 5), via, name, ext, is_async)
